@@ -270,6 +270,8 @@ class C18(Check):
                 if end == 'parse':
                     end = 'full'
                 streams.append({'tokens': gen_direct_tokens(rng), 'end': end, 'k': rng.randint(0, 20)})
+                if rng.random() < 0.25:
+                    streams[-1]['cls'] = rng.choice(['brace', 'paren', 'tree'])
             elif driver == 'lark':
                 streams.append({'text': gen_tree_text(rng), 'end': end, 'k': rng.randint(0, 20)})
             else:
@@ -345,12 +347,18 @@ class C18(Check):
         if driver == 'direct':
             from sim import userobjs
             tl = plan.get('tab_len', 8)
-            cls = {'brace': userobjs.BraceIndenter, 'paren': userobjs.ParenOnlyIndenter}.get(plan.get('indenter_class')) or \
-                {8: userobjs.TreeIndenter, 4: userobjs.TreeIndenter4, 1: userobjs.TreeIndenter1}[tl]
-            # several Indenter subclasses with DIFFERENT bracket vocabularies and tab widths live in this process (PythonIndenter is
-            # created at set-up): each must go by its own class attributes
-            ind = cls()
-            names = dict(nl=NL, ind=IND, ded=DED, opens=tuple(cls.OPEN_PAREN_types), closes=tuple(cls.CLOSE_PAREN_types), tab_len=cls.tab_len)
+            # several Indenter subclasses with DIFFERENT bracket vocabularies and tab widths live in this process, each with ONE long-lived
+            # object per run; a stream may go to another class than the history's main one ('cls'): each must go by its own class attributes
+            inds = {}
+
+            def ind_for(st_):
+                ck = st_.get('cls') or plan.get('indenter_class')
+                cls = {'brace': userobjs.BraceIndenter, 'paren': userobjs.ParenOnlyIndenter, 'tree': userobjs.TreeIndenter}.get(ck) or \
+                    {8: userobjs.TreeIndenter, 4: userobjs.TreeIndenter4, 1: userobjs.TreeIndenter1}[tl]
+                if cls.__name__ not in inds:
+                    inds[cls.__name__] = cls()
+                return inds[cls.__name__], dict(nl=NL, ind=IND, ded=DED, opens=tuple(cls.OPEN_PAREN_types), closes=tuple(cls.CLOSE_PAREN_types), tab_len=cls.tab_len)
+            ind, names = ind_for({})
         elif driver == 'lark':
             ind = W.make_postlex('tree')
             p = Lark(W.G_IND, parser='lalr', lexer=plan['lexer'], postlex=ind)
@@ -375,6 +383,10 @@ class C18(Check):
         for si, st in enumerate(plan['streams']):
             out.tick('streams')
             end, k = st['end'], st['k']
+            if driver == 'direct':
+                ind, names = ind_for(st)
+                if st.get('cls'):
+                    out.count('probe:stream-through-another-indenter-class')
             # ---- what goes in, and what the model says must come out
             lexerr = None
             if driver == 'direct':
@@ -421,7 +433,7 @@ class C18(Check):
             def make_gen(st_):
                 if driver == 'direct':
                     toks = [Token(ty, v, i * 3, 1 + i // 5, 1 + i % 5, 1 + i // 5, 1 + i % 5 + len(v), i * 3 + len(v)) for i, (ty, v) in enumerate(st_['tokens'])]
-                    return ind.process(iter(toks))
+                    return ind_for(st_)[0].process(iter(toks))
                 return self._lex_stream(p if driver == 'lark' else self.py_basic, self._inp(st_))
             gen = precreated.pop(si, None) or make_gen(st)
             nxt = plan['streams'][si + 1] if si + 1 < len(plan['streams']) else None
